@@ -31,7 +31,7 @@ CONSTANTS Scen,        \* scenario ids
           K(_),        \* scenario -> number of container attributes  (attributes are 1..K; names are kept by the harness)
           Recopied(_), \* scenario -> subset of 1..K re-copied by copy
           Eff(_, _),   \* scenario, label -> Seq over 1..K of "none" | "rebind" | "inplace" | "nested"
-          MaxCalls, MaxDeep, Dups
+          MaxCalls, MaxDeep, Dups, DeepAny
 
 VARIABLES scen,   \* chosen scenario
           objs,   \* Seq of [1..K -> cell]     live objects in creation order (1 = seed)
@@ -90,6 +90,9 @@ Next == \/ /\ Len(hist) < MaxCalls
         \/ /\ Len(hist) >= MaxCalls /\ Len(hist) < MaxDeep
            /\ \A i \in 1..Len(hist) : hist[i].l \in HotOf(scen) \cup Dups
            /\ \E r \in 1..Len(objs), l \in HotOf(scen) : Call(r, l)
+        \/ /\ DeepAny /\ Len(hist) >= MaxCalls /\ Len(hist) < MaxDeep
+           /\ \E i \in 1..Len(hist) : hist[i].l \in Dups
+           /\ \E r \in 1..Len(objs), l \in LabelsOf(scen) : Call(r, l)
         \/ /\ Len(hist) < MaxDeep
            /\ \E r \in 1..Len(objs), how \in Dups : Dup(r, how)
 
